@@ -54,6 +54,10 @@ pub enum Cfa {
     RegOff(DReg, i64),
     /// A CFA expression framehop cannot evaluate (it needs a memory read).
     Expr,
+    /// `DW_CFA_def_cfa_expression {DW_OP_breg<r> off}`: the same value as `RegOff`, but computed
+    /// by the expression evaluator (never compressed into a rule). Not in the Lean model; used
+    /// by the `alloc` engine only.
+    ExprRegOff(DReg, i64),
 }
 
 #[derive(Clone, Copy, Debug, PartialEq, Eq)]
@@ -65,6 +69,10 @@ pub enum RR {
     Register(DReg),
     /// A register rule framehop evaluates to "unknown" (an expression needing a memory read).
     Other,
+    /// `DW_CFA_expression {DW_OP_breg<r> off}`: saved at the address `r + off`. `alloc` engine only.
+    ExprReg(DReg, i64),
+    /// `DW_CFA_val_expression {DW_OP_breg<r> off}`: the value `r + off`. `alloc` engine only.
+    ValExprReg(DReg, i64),
 }
 
 #[derive(Clone, Copy, Debug, PartialEq, Eq)]
@@ -128,6 +136,7 @@ impl Cfa {
         match self {
             Cfa::RegOff(r, o) => format!("{}:{}", r.tag(), hex_i(*o)),
             Cfa::Expr => "e".into(),
+            Cfa::ExprRegOff(r, o) => format!("E{}:{}", r.tag(), hex_i(*o)),
         }
     }
 }
@@ -141,6 +150,8 @@ impl RR {
             RR::ValOffset(n) => format!("v:{}", hex_i(*n)),
             RR::Register(r) => format!("r:{}", r.tag()),
             RR::Other => "x".into(),
+            RR::ExprReg(r, o) => format!("X{}:{}", r.tag(), hex_i(*o)),
+            RR::ValExprReg(r, o) => format!("V{}:{}", r.tag(), hex_i(*o)),
         }
     }
 }
